@@ -39,9 +39,14 @@ TraceReset ==
 TrEditBegin == IsEv("edit.begin") /\ Consume /\ EditBegin
 TrEditEnd == IsEv("edit.end") /\ Consume /\ EditEnd
 
-TrIssue ==
-  /\ IsEv("issue") /\ Consume
-  /\ IF Ev.c = Watcher THEN WatcherIssueAny ELSE Issue(Ev.c, Ev.op)
+\* (goroutines that esbuild starts itself -- the watcher loop, the initial
+\* watch build -- appear as additional callers x1, x2, ...)
+TrIssue == IsEv("issue") /\ Consume /\ Issue(Ev.c, Ev.op)
+
+TrCbStartBegin == IsEv("cb.onstart.begin") /\ Consume /\ active # None /\ CbStartBegin(active)
+TrCbStartEnd == IsEv("cb.onstart.end") /\ Consume /\ active # None /\ CbStartEnd(active)
+TrCbResolve == IsEv("cb.resolve") /\ Consume /\ active # None /\ CbResolve(active) /\ Ev.stamp = active
+TrCbLoad == IsEv("cb.load") /\ Consume /\ active # None /\ CbLoad(active, Ev.m) /\ Ev.stamp = active
 
 TrCtxEnter ==
   /\ IsEv("ctx.enter") /\ Consume
@@ -125,7 +130,12 @@ TrCancelEnter ==
   /\ call'[Ev.c].branch = Ev.branch
   /\ Ev.branch = "active" => call'[Ev.c].saw = Ev.b
 
-TrCancelFlag == IsEv("cancel.flag") /\ Consume /\ CancelFlag(Ev.c)
+\* The cancel flag is an atomic that is set outside of any lock; the hook
+\* logs after the store.  The store itself is a silent step (see Silent)
+\* somewhere between cancel.enter and this event.
+TrCancelFlag ==
+  /\ IsEv("cancel.flag") /\ Consume
+  /\ IF call[Ev.c].pc = "flagging" THEN CancelFlag(Ev.c) ELSE UNCHANGED vars
 
 TrRetCancel == IsEv("ret") /\ Ev.op = "cancel" /\ Consume /\ CancelReturn(Ev.c)
 
@@ -143,13 +153,13 @@ TrRetWatch ==
   /\ \/ call[Ev.c].op = "done-watch" /\ UNCHANGED vars                 \* watch.enter was logged
      \/ call[Ev.c].op = "watch" /\ WatchEnter(Ev.c) /\ call'[Ev.c].branch = Ev.res  \* error branches log nothing
 
-\* the watcher's return from rebuild() is not visible to the harness
-TrWatcherReturn == IsEv("rebuild.return") /\ Ev.c = Watcher /\ Consume /\ RebuildReturn(Watcher)
+\* the return of rebuild() to a goroutine that esbuild started itself
+TrRetInternal == IsEv("ret.internal") /\ Consume /\ RebuildReturn(Ev.c)
 
 \* silent steps (no event): the watcher shutdown inside Dispose()
 Silent ==
   /\ l' = l
-  /\ \/ \E c \in Callers : DisposeStopWatcher(c) \/ DisposeWatcherStopped(c)
+  /\ \/ \E c \in Callers : DisposeStopWatcher(c) \/ DisposeWatcherStopped(c) \/ CancelFlag(c)
      \/ WatcherExit
      \/ RecentExpire
 
@@ -160,12 +170,17 @@ TraceNext ==
   \/ TrPublish \/ TrWgDone \/ TrRetRebuild
   \/ TrCancelEnter \/ TrCancelFlag \/ TrRetCancel
   \/ TrDisposeEnter \/ TrRetDispose
-  \/ TrWatchEnter \/ TrRetWatch \/ TrWatcherReturn
+  \/ TrWatchEnter \/ TrRetWatch \/ TrRetInternal
+  \/ TrCbStartBegin \/ TrCbStartEnd \/ TrCbResolve \/ TrCbLoad
   \/ Silent
 
 TraceSpec == TraceInit /\ [][TraceNext]_tvars
 
+\* the action properties of BuildContext, exempting the reset between traces
+TrNoStartAfterDispose == [][IsEv("reset") \/ (disposed => nbuilds' = nbuilds)]_tvars
+TrDisposedIsForever == [][IsEv("reset") \/ (disposed => disposed')]_tvars
+
 \* high-water mark of consumed events (register 1), -workers 1
 HighWater == IF l > TLCGet(1) THEN TLCSet(1, l) ELSE TRUE
-TraceAccepted == TLCGet(1) = Len(TraceLog) + 1
+TraceAccepted == PrintT(<<"HIGHWATER", TLCGet(1)>>) /\ TLCGet(1) = Len(TraceLog) + 1
 =============================================================================
